@@ -339,3 +339,304 @@ Lemma C09_f20_witness_swallowed :
                       /\ forest_comments f20_witness forest = []
                       /\ program_comments p = [].
 Proof. exact f20_witness_swallowed. Qed.
+
+(* ======================================================================================================
+   PARSER HALF, second round (C09P2): proofs/PegQuiet.v, proofs/PegShape.v, proofs/PegCommentsWf.v *)
+Require Import Blots.proofs.PegGeneric Blots.proofs.PegQuiet Blots.proofs.PegShape Blots.proofs.PegCommentsWf
+  Blots.proofs.Comments Blots.proofs.ScanFmt Blots.proofs.DriverText.
+
+(* (c') QUIET RULES EMIT NO PAIRS — for EVERY grammar, every expression, state, fuel, mode, atomicity, lookahead:
+   if Q is a set of silent rules whose bodies reference only rules of Q, and it contains the grammar's implicit-skip
+   rules, then running any expression that references only rules of Q leaves the produced pairs unchanged *)
+Theorem C09_quiet_rules_emit_no_pairs :
+  forall (R : Type) (G : grammar R) (Q : R -> bool),
+  (forall r, Q r = true -> rd_mod (g_def G r) = MSilent) ->
+  (forall r, Q r = true -> forallb Q (idents R (rd_body (g_def G r))) = true) ->
+  (forall w, g_ws G = Some w -> Q w = true) ->
+  (forall c, g_comment G = Some c -> Q c = true) ->
+  forall fuel m a la e s s',
+  forallb Q (idents R e) = true ->
+  (run G fuel m a la e s = Peg.Ok s' \/ run G fuel m a la e s = Peg.Fail s') ->
+  out s' = out s.
+Proof. exact quiet_rules_emit_no_pairs. Qed.
+Check C09_quiet_rules_emit_no_pairs :
+  forall (R : Type) (G : grammar R) (Q : R -> bool),
+  (forall r, Q r = true -> rd_mod (g_def G r) = MSilent) ->
+  (forall r, Q r = true -> forallb Q (idents R (rd_body (g_def G r))) = true) ->
+  (forall w, g_ws G = Some w -> Q w = true) ->
+  (forall c, g_comment G = Some c -> Q c = true) ->
+  forall fuel m a la e s s',
+  forallb Q (idents R e) = true ->
+  (run G fuel m a la e s = Peg.Ok s' \/ run G fuel m a la e s = Peg.Fail s') ->
+  out s' = out s.
+Print Assumptions C09_quiet_rules_emit_no_pairs.
+
+(* the statement kept as a Definition in the previous round, now a theorem *)
+Theorem C09_quiet_rules_emit_no_pairs_on_grammar : C09_quiet_rules_emit_no_pairs_full.
+Proof. exact quiet_rules_emit_no_pairs_blots. Qed.
+Check C09_quiet_rules_emit_no_pairs_on_grammar : C09_quiet_rules_emit_no_pairs_full.
+Print Assumptions C09_quiet_rules_emit_no_pairs_on_grammar.
+
+(* F20 as a theorem on the regenerated grammar: for EVERY text (state), calling context and fuel, what NEWLINE reads
+   (an optional "//" run up to the line break, then the line break) yields no pair *)
+Theorem C09_newline_never_yields_a_pair : forall fuel m a la s s',
+  (run blots_grammar fuel m a la (Ident PG_NEWLINE) s = Peg.Ok s' \/
+   run blots_grammar fuel m a la (Ident PG_NEWLINE) s = Peg.Fail s') ->
+  out s' = out s.
+Proof. exact newline_never_yields_a_pair. Qed.
+Check C09_newline_never_yields_a_pair : forall fuel m a la s s',
+  (run blots_grammar fuel m a la (Ident PG_NEWLINE) s = Peg.Ok s' \/
+   run blots_grammar fuel m a la (Ident PG_NEWLINE) s = Peg.Fail s') ->
+  out s' = out s.
+Print Assumptions C09_newline_never_yields_a_pair.
+
+(* (d) SHAPE of the interpreter's trees, PROVED of Peg.parse (previously only tested on every tree).
+   Generic tool: a per-rule postcondition established for each rule BODY holds of every node of every tree *)
+Theorem C09_shape_postconditions_hold_of_every_node :
+  forall (R : Type) (G : grammar R) (text : string) (C : R -> string -> list (tree R) -> Prop),
+  (forall f, body_gives R G text C (run G f)) ->
+  forall f r s', Peg.parse G f r text = Peg.Ok s' -> forest_all R text C (out s').
+Proof. exact parse_nodes. Qed.
+Check C09_shape_postconditions_hold_of_every_node :
+  forall (R : Type) (G : grammar R) (text : string) (C : R -> string -> list (tree R) -> Prop),
+  (forall f, body_gives R G text C (run G f)) ->
+  forall f r s', Peg.parse G f r text = Peg.Ok s' -> forest_all R text C (out s').
+Print Assumptions C09_shape_postconditions_hold_of_every_node.
+
+(* the text of every `comment` / `eol_comment` pair, at any depth, is "//" ++ r with no line feed in r
+   (conjunct "no \n inside a comment text" of forest_shape_ok, and "comments are //…" of atoms_ok) *)
+Theorem C09_shape_comment_texts : forall fuel text s',
+  Peg.parse blots_grammar fuel PG_input text = Peg.Ok s' ->
+  Forall comment_text_ok (forest_comments text (rev (out s'))).
+Proof. exact shape_comment_texts. Qed.
+Check C09_shape_comment_texts : forall fuel text s',
+  Peg.parse blots_grammar fuel PG_input text = Peg.Ok s' ->
+  Forall comment_text_ok (forest_comments text (rev (out s'))).
+Print Assumptions C09_shape_comment_texts.
+Theorem C09_shape_comment_texts_program : forall text forest p,
+  parse_program_c text = PCOk forest p -> Forall comment_text_ok (forest_comments text forest).
+Proof. exact shape_comment_texts_program. Qed.
+Check C09_shape_comment_texts_program : forall text forest p,
+  parse_program_c text = PCOk forest p -> Forall comment_text_ok (forest_comments text forest).
+Print Assumptions C09_shape_comment_texts_program.
+
+(* the inner pairs of every do_block node are (comment | do_statement)* return_statement — exactly one
+   return_statement, and it is last; a return_statement has exactly one inner pair (its expression); a do_statement /
+   list_item / record_item / statement is one pair optionally followed by one (eol_)comment pair  [kids_spec] *)
+Theorem C09_shape_inner_pairs : forall fuel text s',
+  Peg.parse blots_grammar fuel PG_input text = Peg.Ok s' ->
+  forest_all grule text C_kids (rev (out s')).
+Proof. exact shape_kids. Qed.
+Check C09_shape_inner_pairs : forall fuel text s',
+  Peg.parse blots_grammar fuel PG_input text = Peg.Ok s' ->
+  forest_all grule text C_kids (rev (out s')).
+Print Assumptions C09_shape_inner_pairs.
+Example C09_shape_do_block_reading : forall l,
+  kids_spec PG_do_block l <->
+  exists pre, l = pre ++ [PG_return_statement] /\ Forall (fun x => x = PG_comment \/ x = PG_do_statement) pre.
+Proof. intro l. reflexivity. Qed.
+
+(* (e) wf_ast, a hypothesis of the formatter half inside stmt_ok, DERIVED from the parser model: everything
+   pairs_to_expr_with_comments returns is wf_ast (for every token stream) ... *)
+Theorem C09_parser_output_wf_ast : forall its t, pratt_c its = Outcome.Ok (Some t) -> wf_ast t = true.
+Proof. exact pratt_c_wf_ast. Qed.
+Check C09_parser_output_wf_ast : forall its t, pratt_c its = Outcome.Ok (Some t) -> wf_ast t = true.
+Print Assumptions C09_parser_output_wf_ast.
+Theorem C09_parsed_program_wf_ast : forall text forest p,
+  parse_program_c text = PCOk forest p -> forallb stmt_wf_ast p = true.
+Proof. exact parse_program_c_wf. Qed.
+Check C09_parsed_program_wf_ast : forall text forest p,
+  parse_program_c text = PCOk forest p -> forallb stmt_wf_ast p = true.
+Print Assumptions C09_parsed_program_wf_ast.
+
+(* ... so the end-to-end theorems hold with stmt_ok_parsed = stmt_ok minus its wf_ast conjunct *)
+Theorem C09_tree_to_text_lib_parsed :
+  forall O key_ok, (forall k, key_ok k = true -> neutral (o_record_key O k)) ->
+  forall text forest p mw d,
+  forest_view_ok text forest = true -> forest_shape_ok text forest = true ->
+  forest_no_empty_container text forest = true ->
+  program_of_forest text forest = Outcome.Ok (Some p) ->
+  Forall (stmt_ok_parsed O key_ok mw) p -> format_lib O mw p = Some d ->
+  scan_comments (render d) = forest_comments text forest.
+Proof. exact tree_to_text_lib_parsed. Qed.
+Check C09_tree_to_text_lib_parsed :
+  forall O key_ok, (forall k, key_ok k = true -> neutral (o_record_key O k)) ->
+  forall text forest p mw d,
+  forest_view_ok text forest = true -> forest_shape_ok text forest = true ->
+  forest_no_empty_container text forest = true ->
+  program_of_forest text forest = Outcome.Ok (Some p) ->
+  Forall (stmt_ok_parsed O key_ok mw) p -> format_lib O mw p = Some d ->
+  scan_comments (render d) = forest_comments text forest.
+Print Assumptions C09_tree_to_text_lib_parsed.
+Theorem C09_tree_to_text_cli_parsed :
+  forall O key_ok, (forall k, key_ok k = true -> neutral (o_record_key O k)) ->
+  forall text forest p,
+  forest_view_ok text forest = true -> forest_shape_ok text forest = true ->
+  forest_no_empty_container text forest = true ->
+  program_of_forest text forest = Outcome.Ok (Some p) ->
+  Forall (stmt_ok_parsed O key_ok None) p ->
+  scan_comments (render (format_cli O p)) = forest_comments text forest.
+Proof. exact tree_to_text_cli_parsed. Qed.
+Check C09_tree_to_text_cli_parsed :
+  forall O key_ok, (forall k, key_ok k = true -> neutral (o_record_key O k)) ->
+  forall text forest p,
+  forest_view_ok text forest = true -> forest_shape_ok text forest = true ->
+  forest_no_empty_container text forest = true ->
+  program_of_forest text forest = Outcome.Ok (Some p) ->
+  Forall (stmt_ok_parsed O key_ok None) p ->
+  scan_comments (render (format_cli O p)) = forest_comments text forest.
+Print Assumptions C09_tree_to_text_cli_parsed.
+
+(* generic tool behind C09_shape_inner_pairs (every grammar): in an emitting context (lookahead off, atomicity not
+   Atomic) the rule names of the pairs an expression appends belong to the language [tops e] read off the expression:
+   a rule of the quiet set Q contributes nothing, a non-silent rule exactly its own name, a silent rule what S says
+   (S closed under unfolding rule bodies), sequence = concatenation, e* = star, predicates = nothing *)
+Theorem C09_shape_top_level_pairs :
+  forall (R : Type) (G : grammar R) (Q : R -> bool),
+  (forall r, Q r = true -> rd_mod (g_def G r) = MSilent) ->
+  (forall r, Q r = true -> forallb Q (idents R (rd_body (g_def G r))) = true) ->
+  (forall w, g_ws G = Some w -> Q w = true) ->
+  (forall c, g_comment G = Some c -> Q c = true) ->
+  (forall r, silentb R G r = true -> rd_trivia (g_def G r) = true -> Q r = true) ->
+  forall S : R -> list R -> Prop,
+  (forall r, silentb R G r = true -> Q r = false -> forall l, tops R G Q S (rd_body (g_def G r)) l -> S r l) ->
+  forall f m a e, a <> Atomic -> forall s,
+  match run G f m a false e s with
+  | Peg.Ok s' => exists new, out s' = new ++ out s /\ tops R G Q S e (map (troot R) (rev new))
+  | Peg.Fail s' => out s' = out s
+  | _ => True
+  end.
+Proof. exact run_tops. Qed.
+Check C09_shape_top_level_pairs :
+  forall (R : Type) (G : grammar R) (Q : R -> bool),
+  (forall r, Q r = true -> rd_mod (g_def G r) = MSilent) ->
+  (forall r, Q r = true -> forallb Q (idents R (rd_body (g_def G r))) = true) ->
+  (forall w, g_ws G = Some w -> Q w = true) ->
+  (forall c, g_comment G = Some c -> Q c = true) ->
+  (forall r, silentb R G r = true -> rd_trivia (g_def G r) = true -> Q r = true) ->
+  forall S : R -> list R -> Prop,
+  (forall r, silentb R G r = true -> Q r = false -> forall l, tops R G Q S (rd_body (g_def G r)) l -> S r l) ->
+  forall f m a e, a <> Atomic -> forall s,
+  match run G f m a false e s with
+  | Peg.Ok s' => exists new, out s' = new ++ out s /\ tops R G Q S e (map (troot R) (rev new))
+  | Peg.Fail s' => out s' = out s
+  | _ => True
+  end.
+Print Assumptions C09_shape_top_level_pairs.
+
+(* The two hypotheses of C09_parse_keeps_comments as facts about Peg.parse.  C09_shape_items_full is PROVED below
+   (C09_shape_items: the tree-level facts C09_shape_comment_texts / C09_shape_inner_pairs / C09_shape_do_statement carried
+   through PegToItems.conv to every nested item, proofs/PegShapeItems.v).  C09_view_items_full is KEPT, NOT PROVED (still
+   tested on every interpreter tree by the C09P / REPARSE streams, flag V): that conv reads EVERY comment / eol_comment
+   pair needs the inner-pair shapes of all ~30 structural rules (list, record, lambda, conditional, call_list, ...), of
+   which six are proved here, and an induction of the size of conv_shape. *)
+Definition C09_shape_items_full : Prop := forall fuel text s',
+  Peg.parse blots_grammar fuel PG_input text = Peg.Ok s' -> forest_shape_ok text (rev (out s')) = true.
+Definition C09_view_items_full : Prop := forall fuel text s',
+  Peg.parse blots_grammar fuel PG_input text = Peg.Ok s' -> forest_view_ok text (rev (out s')) = true.
+
+(* the comment part of atoms_ok at program level: under the hypotheses of C09_parse_keeps_comments every comment of
+   the commented program the parser model builds is "//" ++ r with no line feed in r (what is missing for
+   ScanFmt.comment_ok is only a bare carriage return inside r, which the grammar admits) *)
+Require Import Blots.proofs.PegShapeProgram.
+Theorem C09_parsed_program_comment_texts : forall text forest p,
+  parse_program_c text = PCOk forest p ->
+  forest_view_ok text forest = true -> forest_shape_ok text forest = true ->
+  forest_no_empty_container text forest = true ->
+  Forall comment_text_ok (program_comments p).
+Proof. exact parsed_program_comment_texts. Qed.
+Check C09_parsed_program_comment_texts : forall text forest p,
+  parse_program_c text = PCOk forest p ->
+  forest_view_ok text forest = true -> forest_shape_ok text forest = true ->
+  forest_no_empty_container text forest = true ->
+  Forall comment_text_ok (program_comments p).
+Print Assumptions C09_parsed_program_comment_texts.
+
+(* FIRST-byte analysis of the interpreter, every grammar: if an expression succeeds, either the remaining input is
+   unchanged (and the expression is nullable) or its first byte belongs to [first e]; rule references go through two
+   tables (Fst, Nul) closed under unfolding rule bodies *)
+Require Import Blots.proofs.PegShapeFirst.
+Theorem C09_shape_first_byte :
+  forall (R : Type) (G : grammar R) (Fst : R -> Ascii.ascii -> bool) (Nul : R -> bool),
+  (forall r c, first R G Fst Nul (rd_body (g_def G r)) c = true -> Fst r c = true) ->
+  (forall r, nullable R Nul (rd_body (g_def G r)) = true -> Nul r = true) ->
+  forall f, first_runner R G Fst Nul (run G f).
+Proof. exact run_first. Qed.
+Check C09_shape_first_byte :
+  forall (R : Type) (G : grammar R) (Fst : R -> Ascii.ascii -> bool) (Nul : R -> bool),
+  (forall r c, first R G Fst Nul (rd_body (g_def G r)) c = true -> Fst r c = true) ->
+  (forall r, nullable R Nul (rd_body (g_def G r)) = true -> Nul r = true) ->
+  forall f, first_runner R G Fst Nul (run G f).
+Print Assumptions C09_shape_first_byte.
+
+(* third conjunct of do_shape at tree level: for every accepted text, the inner pairs of every do_statement node are
+   [expression], [expression; comment] or [comment] — never [comment; comment]: the `comment` rule stops at a line break
+   or the end of the input, where `WHITESPACE* ~ comment` cannot start *)
+Theorem C09_shape_do_statement : forall fuel text s',
+  Peg.parse blots_grammar fuel PG_input text = Peg.Ok s' ->
+  forest_all grule text C_do_statement (rev (out s')).
+Proof. exact shape_do_statement. Qed.
+Check C09_shape_do_statement : forall fuel text s',
+  Peg.parse blots_grammar fuel PG_input text = Peg.Ok s' ->
+  forest_all grule text C_do_statement (rev (out s')).
+Print Assumptions C09_shape_do_statement.
+
+(* forest_shape_ok — hypothesis of C09_parse_keeps_comments, tested on every tree until now — holds of EVERY result of
+   Peg.parse on the regenerated grammar, for every text and fuel *)
+Require Import Blots.proofs.PegShapeItems Blots.proofs.PegShapeCompose.
+Theorem C09_shape_items : C09_shape_items_full.
+Proof. exact parse_forest_shape_ok. Qed.
+Check C09_shape_items : C09_shape_items_full.
+Check C09_shape_items : forall fuel text s',
+  Peg.parse blots_grammar fuel PG_input text = Peg.Ok s' -> forest_shape_ok text (rev (out s')) = true.
+Print Assumptions C09_shape_items.
+
+(* (a') parser half from the TEXT, shape hypothesis discharged: the comment / eol_comment pairs of the tree the PEG model
+   builds = the comments of the commented program, given only that the item view reads every comment pair (flag V,
+   tested) and outside the exclusion C09-empty-container *)
+Theorem C09_parse_keeps_comments_text : forall text forest p,
+  parse_program_c text = PCOk forest p ->
+  forest_view_ok text forest = true ->
+  forest_no_empty_container text forest = true ->
+  program_comments p = forest_comments text forest.
+Proof. exact parse_keeps_comments_text. Qed.
+Check C09_parse_keeps_comments_text : forall text forest p,
+  parse_program_c text = PCOk forest p ->
+  forest_view_ok text forest = true ->
+  forest_no_empty_container text forest = true ->
+  program_comments p = forest_comments text forest.
+Print Assumptions C09_parse_keeps_comments_text.
+
+(* (b') text -> emitted text, both drivers, shape and wf_ast discharged *)
+Theorem C09_text_to_text_lib :
+  forall O key_ok, (forall k, key_ok k = true -> neutral (o_record_key O k)) ->
+  forall text forest p mw d,
+  parse_program_c text = PCOk forest p ->
+  forest_view_ok text forest = true -> forest_no_empty_container text forest = true ->
+  Forall (stmt_ok_parsed O key_ok mw) p -> format_lib O mw p = Some d ->
+  scan_comments (render d) = forest_comments text forest.
+Proof. exact text_to_text_lib. Qed.
+Check C09_text_to_text_lib :
+  forall O key_ok, (forall k, key_ok k = true -> neutral (o_record_key O k)) ->
+  forall text forest p mw d,
+  parse_program_c text = PCOk forest p ->
+  forest_view_ok text forest = true -> forest_no_empty_container text forest = true ->
+  Forall (stmt_ok_parsed O key_ok mw) p -> format_lib O mw p = Some d ->
+  scan_comments (render d) = forest_comments text forest.
+Print Assumptions C09_text_to_text_lib.
+Theorem C09_text_to_text_cli :
+  forall O key_ok, (forall k, key_ok k = true -> neutral (o_record_key O k)) ->
+  forall text forest p,
+  parse_program_c text = PCOk forest p ->
+  forest_view_ok text forest = true -> forest_no_empty_container text forest = true ->
+  Forall (stmt_ok_parsed O key_ok None) p ->
+  scan_comments (render (format_cli O p)) = forest_comments text forest.
+Proof. exact text_to_text_cli. Qed.
+Check C09_text_to_text_cli :
+  forall O key_ok, (forall k, key_ok k = true -> neutral (o_record_key O k)) ->
+  forall text forest p,
+  parse_program_c text = PCOk forest p ->
+  forest_view_ok text forest = true -> forest_no_empty_container text forest = true ->
+  Forall (stmt_ok_parsed O key_ok None) p ->
+  scan_comments (render (format_cli O p)) = forest_comments text forest.
+Print Assumptions C09_text_to_text_cli.
